@@ -48,6 +48,7 @@ pub fn profile(id: &str) -> Option<Profile> {
         }
         "C03" => {
             g.tiny_cache_pct = 60;
+            g.frag_pct = 15;
             g.op_weights = [40, 5, 15, 14, 4, 6, 0, 0, 1];
             o.flush_reopen = false;
             o.need_flush = false;
@@ -89,6 +90,7 @@ pub fn profile(id: &str) -> Option<Profile> {
             (Kind::Engine, 8000, 600_000)
         }
         "C08" => {
+            g.frag_pct = 20;
             g.par_pct = 25;
             g.tiny_cache_pct = 50;
             g.op_weights = [50, 5, 25, 6, 3, 3, 0, 0, 2];
